@@ -19,8 +19,9 @@ let handle = function
   | "doc" :: _id :: _origin :: src :: _ ->
       (match run_c13 cur (dec_str src) with
        | ObsReject why -> "REJECT\t" ^ utf8 why
-       | ObsOk (tree, t1, v1, t0, v0) ->
-           String.concat "\t" ["OK"; utf8 tree; enc_str t1; utf8 v1; (if t0 = t1 then "=" else enc_str t0); utf8 v0])
+       | ObsOk (tree, t1, v1, t0, v0, kwc) ->
+           String.concat "\t" ["OK"; utf8 tree; enc_str t1; utf8 v1; (if t0 = t1 then "=" else enc_str t0); utf8 v0;
+                               (if kwc then "kwc=1" else "kwc=0")])
   | _ -> "BAD-LINE"
 
 let () = main handle
